@@ -92,3 +92,24 @@ CHECKS['C02'] = dict(
     min_nontrivial={'quick': 1500, 'thorough': 3000},
     min_counters={'quick': {'packets_with_range': 20000}, 'thorough': {'packets_with_range': 500000}},
 )
+
+CHECKS['C05'] = dict(
+    level='exploration',
+    rule="cbr: encoder histories (random Fs/channels/application; bitrate 1..512000 + AUTO/MAX, VBR/CBR toggles, mode/bandwidth/"
+         "FEC/complexity/forced-channel changes between frames; frame 2.5..120 ms; max_data_bytes 1..4000 dense at 1..64 and "
+         "1268..1282; 14 signal families) with guarded output buffers; every CBR packet compared with the byte-count model "
+         "clip(round(b*dur/8),1,min(max_data_bytes,1276)), b resolved by the harness from the documented AUTO/MAX rules; every "
+         "packet also RFC-validated and decoded (final range). cbrms: surround/ambisonics/projection CBR totals. cvbr: 10 s "
+         "constrained-VBR streams, whole-stream and 3 s sliding-window average vs target. Distinct = (frame duration, Fs, channels, "
+         "bitrate kind, size-clipped-high/low, DTX, tiny buffer, TOC config, length class).",
+    assumptions=COMMON_ASSUME + ["CVBR tolerances are the committed constants in calib/c05.json (measured on the pinned tree), one TOC byte per packet is not charged to the rate target",
+                                 "multistream CBR total is accepted as floor or round of bitrate*duration/8 (both equal for the exact cases)"],
+    evals_counter=None,
+    runs=[
+        dict(h='h_c05.c', mode='cbr', flavour='asan', n={'quick': 2400, 'thorough': 60000}),
+        dict(h='h_c05.c', mode='cbrms', flavour='asan', n={'quick': 1200, 'thorough': 30000}),
+        dict(h='h_c05.c', mode='cvbr', flavour='prod', n={'quick': 480, 'thorough': 8000}),
+    ],
+    min_nontrivial={'quick': 1000, 'thorough': 2000},
+    min_counters={'quick': {'cbr_exact_checked': 20000, 'ms_cbr_exact_checked': 5000, 'cvbr_streams': 400}, 'thorough': {'cbr_exact_checked': 500000}},
+)
